@@ -57,7 +57,9 @@ def text(cps):
 def signature(r, e, b):
     why = r["why"]
     if why.startswith("outcome:"):
-        return "C09:%s:%s:%s" % (why, b["path"], slug(e.get("msg")))
+        # outcome:<error|panic>:<stage>; the build path unless the stage says it
+        path = "" if why.endswith(":" + b["path"]) else ":" + b["path"]
+        return "C09:%s%s:%s" % (why, path, slug(e.get("msg")))
     if e["ev"] != "readback" and ":outcome:" in why:
         return "C09:%s:%s" % (why, slug(e.get("msg")))
     return "C09:%s:%s" % (why, b["path"])
@@ -122,7 +124,7 @@ def run(ctx):
     ctx.log("scripts from TLC: %d, predicted reasons %s" % (len(scripts), dict(reasons)))
     rng = random.Random(ctx.seed)
     scripts.sort(key=lambda s: json.dumps(s, sort_keys=True))
-    nrep = ctx.pick(400, 12000)
+    nrep = ctx.pick(400, 6000)
     chosen = scripts if len(scripts) <= nrep else rng.sample(scripts, nrep)
     for n, s in enumerate(chosen):
         s["n"] = n + 1
